@@ -1368,3 +1368,24 @@ func TestVxC08Parallel(t *testing.T) {
 		Run: func(ci interface{}, k *vstats.Case) error { return vxC08RunPar(ci.(*vxC08Par), k) },
 	})
 }
+
+// ---------------------------------------------------------------------------------------
+// C06 ("streams are never leaked") at the allocator: the same owned schedules, judged for C06.
+// A released id must become available again and an id in use must never be handed to a second
+// request, whatever the interleaving of GetStream / Clear on one bitmap word.
+
+func TestVxC06Streams(t *testing.T) {
+	defer runtime.GOMAXPROCS(runtime.GOMAXPROCS(1))
+	vx.Check(t, vx.Prop{ID: "C06", Part: "TestVxC06Streams", Rule: "stream allocator under owned schedules - " + vxC08Rule,
+		Draw: func(t *rapid.T) interface{} { return vxC08DrawSched(t) },
+		New:  func() interface{} { return &vxC08Sched{} },
+		Run: func(ci interface{}, k *vstats.Case) error {
+			c := ci.(*vxC08Sched)
+			o, err := vxC08RunSched(c)
+			if err != nil {
+				return err
+			}
+			vxC08Label(c, o, k)
+			return nil
+		}})
+}
